@@ -1,0 +1,9 @@
+//go:build verif
+
+package epubdoc
+
+// VerifResolveHref exposes (*Reader).resolveHref for the verification harness:
+// href is resolved against baseDir exactly as loadChapters does it.
+func VerifResolveHref(baseDir, href string) string {
+	return (&Reader{baseDir: baseDir}).resolveHref(href)
+}
